@@ -217,3 +217,15 @@ package server
 //@ mode effects
 //@ effect[C04:part-uploaded-as-requested] every s.storage.UploadPart(_, $b, $k, $u, $n, _, $ci)
 //@     where $b == bucketName && $k == key && $u == uploadId && $n == partNumberI32 && $n >= 1 && $n <= 10000 && $ci == checksumInput
+
+// C07 / C11. CompleteMultipartUpload: the preconditions the request supplied reach the storage - an If-Match ETag
+// unchanged, If-None-Match: * as such, never both - together with the upload, bucket, key and checksum input of this
+// request; a request without preconditions is completed without any.
+//@ func (*Server).completeMultipartUploadHandler
+//@ property C07 C11
+//@ mode effects
+//@ effect[C07:complete-carries-the-requested-preconditions] every s.storage.CompleteMultipartUpload(_, $b, $k, $u, $ci, $o)
+//@     where $b == bucketName && $k == key && $u == uploadId && $ci == checksumInput &&
+//@         (ifMatch != nil ==> $o != nil && $o.IfMatchETag != nil && *$o.IfMatchETag == *ifMatch && !$o.IfNoneMatchStar) &&
+//@         (ifNoneMatch != nil ==> $o != nil && $o.IfNoneMatchStar && $o.IfMatchETag == nil) &&
+//@         (ifMatch == nil && ifNoneMatch == nil && $o != nil ==> $o.IfMatchETag == nil && !$o.IfNoneMatchStar)
